@@ -50,10 +50,10 @@ class C08(Prop):
         "hook (cfg selene_verif): lint_filtering::verif exposes filter ranges, parse_comment, visit events, filter_diagnostics",
         "full_moon trivia attachment and traversal order are taken from the real traversal (visit events), wf_filters is evaluated on every dump",
         "Vec::sort_by_key is a stable sort (modelled as stable insertion sort)",
-        "PENDING PROOF: machine = specification on well-formed families (C08_filter_correct_statement) is evaluated on every case, not yet proved",
+        "the hypothesis wf_ok of C08_filter_correct (ranges ordered; no end point of an earlier same-range run inside a later run; same-range filters consecutive) is evaluated on every dumped filter list: it is what real traversals produce, not proved of full_moon",
         "Generated/LintTable.v regenerated from use_lints! on every run",
     ]
-    assumptions = ["wf_filters of the dumped filter list (laminar, same start => same range, pre-order, contiguous same-range runs)"]
+    assumptions = ["wf_ok of the dumped filter list (Filter/Correct7.v)"]
 
     def __init__(self):
         self.translators = [_lint_table]
